@@ -419,6 +419,7 @@ func (g *Gen) valOpt(v ssa.Value) (x Val, ok bool) {
 }
 
 func (g *Gen) loopHead(b *ssa.BasicBlock, li *loopInfo, st *State, rname string, phiMerged map[*ssa.Phi]string) {
+	li.preSt = st.clone()
 	invs := g.con.LoopInv[li.ord]
 	if len(invs) == 0 && len(g.con.LoopDecr[li.ord]) == 0 && !g.isPlainRangeLoop(li) {
 		panic(fmt.Errorf("loop %d (block %d, %s) has no invariant", li.ord, b.Index, g.posOf(firstPos(b))))
@@ -427,7 +428,7 @@ func (g *Gen) loopHead(b *ssa.BasicBlock, li *loopInfo, st *State, rname string,
 	g.findRangeIndex(li)
 	if li.rangePhi != nil {
 		g.oblige(fmt.Sprintf("%s/loop%d-inv-entry#range", shortKey(g.key), li.ord), "inv-entry", nil, rname,
-			rangeInv(phiMerged[li.rangePhi], li.rangeN), "range index stays within -1 .. len-1 (synthesised)", firstPos(b))
+			li.rangeInvOf(phiMerged[li.rangePhi]), "loop counter stays between its start value and the loop bound (synthesised)", firstPos(b))
 	}
 	// inv-entry
 	vars := g.loopEnv(li, st, phiMerged)
@@ -512,7 +513,7 @@ func (g *Gen) loopHead(b *ssa.BasicBlock, li *loopInfo, st *State, rname string,
 	}
 	li.headSt = hs
 	if li.rangePhi != nil {
-		g.guardAssume(rname, rangeInv(phiVals[li.rangePhi], li.rangeN))
+		g.guardAssume(rname, li.rangeInvOf(phiVals[li.rangePhi]))
 	}
 	vars2 := g.loopEnv(li, hs, phiVals)
 	env2 := g.envFor(vars2, hs, g.old)
@@ -521,6 +522,10 @@ func (g *Gen) loopHead(b *ssa.BasicBlock, li *loopInfo, st *State, rname string,
 	}
 	for _, d := range g.con.LoopDecr[li.ord] {
 		li.decrAt = append(li.decrAt, env2.trInt(d))
+	}
+	if len(g.con.LoopDecr[li.ord]) == 0 && li.rangePhi != nil {
+		li.decrAt = []string{"(- " + li.rangeN + " " + phiVals[li.rangePhi] + ")"}
+		li.autoDecr = true
 	}
 	g.probe(fmt.Sprintf("%s/vacuity:loop%d", shortKey(g.key), li.ord), rname, "loop head reachable with invariant")
 }
@@ -950,7 +955,7 @@ func (g *Gen) backEdge(b *ssa.BasicBlock, succIdx int, h *ssa.BasicBlock, st *St
 	env := g.envFor(vars, st, g.old)
 	if li.rangePhi != nil {
 		g.oblige(fmt.Sprintf("%s/loop%d-inv-preserved#range@b%d", shortKey(g.key), li.ord, b.Index), "inv-preserved", nil, guard,
-			rangeInv(phiVals[li.rangePhi], li.rangeN), "range index stays within -1 .. len-1 (synthesised)", firstPos(h))
+			li.rangeInvOf(phiVals[li.rangePhi]), "loop counter stays between its start value and the loop bound (synthesised)", firstPos(h))
 	}
 	for i, c := range g.con.LoopInv[li.ord] {
 		t := g.mustClause(env, c.E, fmt.Sprintf("loop %d invariant#%d", li.ord, i))
@@ -963,6 +968,9 @@ func (g *Gen) backEdge(b *ssa.BasicBlock, succIdx int, h *ssa.BasicBlock, st *St
 			after = append(after, env.trInt(d))
 		}
 		g.oblige(fmt.Sprintf("%s/loop%d-decreases@b%d", shortKey(g.key), li.ord, b.Index), "decreases", []string{"TERM"}, guard, lexLess(after, li.decrAt), "loop variant decreases and is bounded below", firstPos(h))
+	} else if li.autoDecr {
+		after := []string{"(- " + li.rangeN + " " + phiVals[li.rangePhi] + ")"}
+		g.oblige(fmt.Sprintf("%s/loop%d-decreases@b%d", shortKey(g.key), li.ord, b.Index), "decreases", []string{"TERM"}, guard, lexLess(after, li.decrAt), "loop counter approaches the loop bound (synthesised variant)", firstPos(h))
 	} else {
 		g.stats.Abstractions["loop-without-variant"]++
 	}
@@ -1267,16 +1275,53 @@ func substSym(t, sym, repl string) string {
 	return sb.String()
 }
 
-func rangeInv(pv, n string) string {
-	return "(and (<= (- 1) " + pv + ") (< " + pv + " (imax " + n + " 0)))"
+func (li *loopInfo) rangeInvOf(pv string) string {
+	c := smtI(li.rangeC)
+	if li.rangePlus {
+		// compared as phi+1 < N: phi stays within c .. max(N-1, c)
+		return "(and (<= " + c + " " + pv + ") (<= " + pv + " (imax (- " + li.rangeN + " 1) " + c + ")))"
+	}
+	return "(and (<= " + c + " " + pv + ") (<= " + pv + " (imax " + li.rangeN + " " + c + ")))"
 }
 
-// findRangeIndex recognises the SSA shape of `for i := range slice`: a phi commented
-// "rangeindex" starting at -1, incremented at the head and compared with a length defined
-// outside the loop.
+// findRangeIndex recognises counting loops in SSA form and synthesises their index invariant:
+//   for i := range slice   (phi "rangeindex" from -1, compared as phi+1 < len)
+//   for i := c; i < N; i++ (phi from a constant c, step +1, compared as phi < N)
+// N must be loop invariant (defined outside, or a load from a heap kind the loop does not write).
 func (g *Gen) findRangeIndex(li *loopInfo) {
+	if li.rangePhi != nil || li.rangeTried {
+		return
+	}
+	li.rangeTried = true
 	for _, phi := range li.phis {
-		if phi.Comment != "rangeindex" {
+		if !isInteger(phi.Type()) {
+			continue
+		}
+		// entry constant and +1 step
+		var c *ssa.Const
+		okShape := true
+		for i, e := range phi.Edges {
+			pred := li.head.Preds[i]
+			if isBackEdge(pred, li.head) {
+				inc, ok := e.(*ssa.BinOp)
+				if !ok || inc.Op != token.ADD || inc.X != ssa.Value(phi) {
+					okShape = false
+					break
+				}
+				if one, ok := inc.Y.(*ssa.Const); !ok || one.Value == nil || one.Int64() != 1 {
+					okShape = false
+					break
+				}
+			} else {
+				k, ok := e.(*ssa.Const)
+				if !ok || k.Value == nil || (c != nil && c.Int64() != k.Int64()) {
+					okShape = false
+					break
+				}
+				c = k
+			}
+		}
+		if !okShape || c == nil {
 			continue
 		}
 		for _, ins := range li.head.Instrs {
@@ -1284,18 +1329,51 @@ func (g *Gen) findRangeIndex(li *loopInfo) {
 			if !ok || cmp.Op != token.LSS {
 				continue
 			}
-			inc, ok := cmp.X.(*ssa.BinOp)
-			if !ok || inc.Op != token.ADD || inc.X != ssa.Value(phi) {
+			plusOne := false
+			if cmp.X != ssa.Value(phi) {
+				inc, ok := cmp.X.(*ssa.BinOp)
+				if !ok || inc.Op != token.ADD || inc.X != ssa.Value(phi) {
+					continue
+				}
+				plusOne = true
+			}
+			var nv Val
+			var okN bool
+			if li.preSt != nil {
+				nv, okN = g.headEvalN(li, cmp.Y)
+			}
+			if !okN {
 				continue
 			}
-			if g.definedOutside(li, cmp.Y) {
-				if nv, ok := g.valOpt(cmp.Y); ok {
-					li.rangePhi, li.rangeN = phi, nv.T
-					return
-				}
-			}
+			li.rangePhi, li.rangeN, li.rangeC, li.rangePlus = phi, nv.T, c.Int64(), plusOne
+			return
 		}
 	}
+}
+
+// headEvalN evaluates the loop bound at the loop head (pre-state); the written kinds are needed
+// for loads, so it runs a kinds-only scan when that has not happened yet.
+func (g *Gen) headEvalN(li *loopInfo, v ssa.Value) (Val, bool) {
+	if g.definedOutside(li, v) {
+		return g.valOpt(v)
+	}
+	if li.kindSet == nil {
+		saveK, saveS, saveW, saveA, saveH := li.kinds, li.sLocs, li.sWins, li.allocs, li.allHav
+		li.kinds, li.sLocs, li.sWins = nil, map[string][]string{}, nil
+		g.scanLoopPass(li, li.preSt, 1)
+		ks := map[string]bool{}
+		for _, k := range li.kinds {
+			ks[k] = true
+		}
+		hav := li.allHav
+		li.kinds, li.sLocs, li.sWins, li.allocs, li.allHav = saveK, saveS, saveW, saveA, saveH
+		if hav {
+			return Val{}, false
+		}
+		li.kindSet = ks
+		defer func() { li.kindSet = nil }()
+	}
+	return g.headEval(li, li.preSt, v)
 }
 
 func (g *Gen) isPlainRangeLoop(li *loopInfo) bool {
